@@ -152,6 +152,22 @@ theorem lock_brackets :
     RqModel.Gen.SnapshotLock.openReleasesReadLockOnlyOnError = true ∧
     RqModel.Gen.SnapshotLock.openHandsLockToLockingStreamer = true := by decide
 
+/-- **A `Read` never disarms the idle timer**, whatever it returns (data, EOF, an error): in
+the model `read` leaves the deadline alone, and in the current sources (regenerated)
+`LockingStreamer.Read` makes no call on the timer at all. So a consumer that reads to EOF, or
+hits a read error, and then stalls without `Close` is still force-closed. -/
+theorem read_leaves_timer_armed (st st' : Stream) (now n : Nat) (h : st.read now n = some st') :
+    st'.deadline = st.deadline ∧ st'.closed = st.closed ∧
+    RqModel.Gen.SnapshotLock.streamerReadFound = true ∧
+    RqModel.Gen.SnapshotLock.streamerReadTimerCalls = 0 := by
+  refine ⟨?_, ?_, by decide, by decide⟩ <;>
+  · unfold Stream.read at h
+    split at h
+    · cases h
+    · simp only [Option.some.injEq] at h
+      subst h
+      split <;> rfl
+
 /-- Readers are refused, not queued, while a reap holds the lock: `Open`, `ListAll`, `Len`,
 `Stats` use the non-blocking `BeginRead`. Exclusion is preserved (this is what
 `reap_excludes_streams` needs); the cost is availability — e.g. raft.NewRaft's
